@@ -1,17 +1,49 @@
-(* C11 proofs: choke_manager_allocate_slots over the real weight tables.
-   allocate_slots_exact: whenever the allocation returns, target[i].first <= size of class i and
-   the targets sum to min(max, number of candidates); the unbounded "find start" loop of the C++
-   never runs past the 4-element arrays. *)
+(* C11 proofs: choke_manager_allocate_slots.
+   allocate_slots_exact: whenever the allocation returns, target[i].first <= size of class i and,
+   if every weight of the table is >= 1 (params_ok_now: true of the four real tables), the targets
+   sum to min(max, number of candidates); the unbounded "find start" loop of the C++ stays inside
+   the 4-element arrays. *)
 From Coq Require Import List NArith ZArith Bool Arith Lia.
 From LTV.C11 Require Import Model.
 Import ListNotations.
 Local Open Scope N_scope.
 
-Definition real_tables : list (list N) := [[1; 1; 1; 1]; [32; 1; 1; 1]; [1; 3; 6; 9]; [1; 6; 8; 16]].
-Lemma tables_real : forall k, In (choke_table k) real_tables /\ In (unchoke_table k) real_tables.
-Proof. intros k. destruct k as [|[|[|k]]]; simpl; auto 10. Qed.
-
 Definition nf (a s w : N) : N := if a <? s then w else 0.
+
+Ltac nbool :=
+  repeat match goal with
+  | H : (_ || _) = true |- _ => apply orb_true_iff in H
+  | H : (_ || _) = false |- _ => apply orb_false_iff in H; destruct H
+  | H : (_ <=? _) = true |- _ => apply N.leb_le in H
+  | H : (_ <=? _) = false |- _ => apply N.leb_gt in H
+  | H : (_ <? _) = true |- _ => apply N.ltb_lt in H
+  | H : (_ <? _) = false |- _ => apply N.ltb_ge in H
+  | H : (_ =? _) = true |- _ => apply N.eqb_eq in H
+  | H : (_ =? _) = false |- _ => apply N.eqb_neq in H
+  end.
+
+(* one class of the "equal share" pass *)
+Definition cstep (base w s : N) (st : N * N * N) : N * N * N :=
+  let '(a, un, wt) := st in
+  if (w =? 0) || (s <=? a) then st
+  else let u := N.min (s - a) (base * w) in
+       (a + u, un - u, if s <=? a + u then wt - w else wt).
+
+Lemma cstep_spec base w s a un wt B a' un' wt' :
+  a <= s -> nf a s w <= wt -> base * nf a s w + B <= un ->
+  cstep base w s (a, un, wt) = (a', un', wt') ->
+  a <= a' /\ a' <= s /\ B <= un' /\ a' + un' = a + un /\ wt' + nf a s w = wt + nf a' s w.
+Proof.
+  unfold cstep, nf. intros L W Hb.
+  destruct ((w =? 0) || (s <=? a)) eqn:E.
+  - intros HH; injection HH as <- <- <-. nbool. destruct (a <? s) eqn:E2; nbool; repeat split; lia.
+  - nbool. destruct (a <? s) eqn:E2; nbool; [|lia].
+    destruct (N.min_spec (s - a) (base * w)) as [[M1 M]|[M1 M]]; rewrite M;
+    intros HH; injection HH as <- <- <-.
+    + replace (a + (s - a)) with s by lia. rewrite N.leb_refl, N.ltb_irrefl. repeat split; lia.
+    + destruct (s <=? a + base * w) eqn:E3; destruct (a + base * w <? s) eqn:E4; nbool; repeat split; lia.
+Qed.
+
 Definition AInv (ws ss : list N) (mx : N) (st : list N * N * N) : Prop :=
   match ws, ss, st with
   | [w0; w1; w2; w3], [s0; s1; s2; s3], ([a0; a1; a2; a3], un, wt) =>
@@ -21,39 +53,207 @@ Definition AInv (ws ss : list N) (mx : N) (st : list N * N * N) : Prop :=
   | _, _, _ => False
   end.
 
-Ltac split_ifs :=
-  repeat match goal with
-  | |- context [if ?b then _ else _] => let E := fresh "E" in destruct b eqn:E
-  | H : context [if ?b then _ else _] |- _ => let E := fresh "E" in destruct b eqn:E
-  end.
-Ltac nbool :=
-  repeat match goal with
-  | H : (_ <=? _) = true |- _ => apply N.leb_le in H
-  | H : (_ <=? _) = false |- _ => apply N.leb_gt in H
-  | H : (_ <? _) = true |- _ => apply N.ltb_lt in H
-  | H : (_ <? _) = false |- _ => apply N.ltb_ge in H
-  | H : (_ =? _) = true |- _ => apply N.eqb_eq in H
-  | H : (_ =? _) = false |- _ => apply N.eqb_neq in H
-  end.
-
-Section Table.
-Variables w0 w1 w2 w3 : N.
-Hypothesis Hw : In [w0; w1; w2; w3] real_tables.
-Variables s0 s1 s2 s3 mx : N.
+Section Alloc.
+Variables w0 w1 w2 w3 s0 s1 s2 s3 mx : N.
 Let ws := [w0; w1; w2; w3].
 Let ss := [s0; s1; s2; s3].
+
+Lemma share_pass_eq a0 a1 a2 a3 un wt base :
+  share_pass 4 0 base ws ss ([a0; a1; a2; a3], un, wt) =
+  let '(b0, u0, t0) := cstep base w0 s0 (a0, un, wt) in
+  let '(b1, u1, t1) := cstep base w1 s1 (a1, u0, t0) in
+  let '(b2, u2, t2) := cstep base w2 s2 (a2, u1, t1) in
+  let '(b3, u3, t3) := cstep base w3 s3 (a3, u2, t2) in
+  ([b0; b1; b2; b3], u3, t3).
+Proof.
+  unfold cstep. cbn [share_pass nthN nth setN upd ws ss].
+  destruct ((w0 =? 0) || (s0 <=? a0)); cbn [nthN nth setN upd];
+  destruct ((w1 =? 0) || (s1 <=? a1)); cbn [nthN nth setN upd];
+  destruct ((w2 =? 0) || (s2 <=? a2)); cbn [nthN nth setN upd];
+  destruct ((w3 =? 0) || (s3 <=? a3)); cbn [nthN nth setN upd]; reflexivity.
+Qed.
 
 Lemma share_pass_inv a0 a1 a2 a3 un wt base :
   AInv ws ss mx ([a0; a1; a2; a3], un, wt) -> base * wt <= un ->
   AInv ws ss mx (share_pass 4 0 base ws ss ([a0; a1; a2; a3], un, wt)).
 Proof.
-  intros (L0 & L1 & L2 & L3 & Ewt & Esum) Hb. subst wt.
-  unfold real_tables in Hw. simpl in Hw.
-  destruct Hw as [E|[E|[E|[E|[]]]]]; injection E as <- <- <- <-;
-  cbn [share_pass nthN nth setN upd ws ss]; unfold nf in *; cbn [N.eqb orb];
-  repeat match goal with
-  | |- context [N.min ?a ?b] => let M := fresh "M" in destruct (N.min_spec a b) as [[? M]|[? M]]; rewrite M
-  | |- context [if ?b then _ else _] => let E := fresh "E" in destruct b eqn:E; cbn [share_pass nthN nth setN upd fst snd]
-  end; cbn [AInv]; unfold nf; split_ifs; nbool; repeat split; try lia.
+  intros (L0 & L1 & L2 & L3 & Ewt & Esum) Hb. rewrite share_pass_eq.
+  subst wt. rewrite !N.mul_add_distr_l in Hb.
+  destruct (cstep base w0 s0 (a0, un, _)) as [[b0 u0] t0] eqn:C0.
+  eapply (cstep_spec _ _ _ _ _ _ (base * nf a1 s1 w1 + base * nf a2 s2 w2 + base * nf a3 s3 w3)) in C0; [|lia|lia|lia].
+  destruct C0 as (A0 & A0' & B0 & S0 & W0).
+  destruct (cstep base w1 s1 (a1, u0, t0)) as [[b1 u1] t1] eqn:C1.
+  eapply (cstep_spec _ _ _ _ _ _ (base * nf a2 s2 w2 + base * nf a3 s3 w3)) in C1; [|lia|lia|lia].
+  destruct C1 as (A1 & A1' & B1 & S1 & W1).
+  destruct (cstep base w2 s2 (a2, u1, t1)) as [[b2 u2] t2] eqn:C2.
+  eapply (cstep_spec _ _ _ _ _ _ (base * nf a3 s3 w3)) in C2; [|lia|lia|lia].
+  destruct C2 as (A2 & A2' & B2 & S2 & W2).
+  destruct (cstep base w3 s3 (a3, u2, t2)) as [[b3 u3] t3] eqn:C3.
+  eapply (cstep_spec _ _ _ _ _ _ 0) in C3; [|lia|lia|lia].
+  destruct C3 as (A3 & A3' & B3 & S3 & W3).
+  cbn [AInv]. repeat split; lia.
 Qed.
-End Table.
+
+Lemma share_loop_inv : forall fuel st st', AInv ws ss mx st -> share_loop fuel ws ss st = Ok st' -> AInv ws ss mx st'.
+Proof.
+  induction fuel; intros [[tg un] wt] st' I; cbn [share_loop].
+  - destruct ((wt =? 0) || (un / wt =? 0)); [intros HH; injection HH as <-; auto|discriminate].
+  - destruct ((wt =? 0) || (un / wt =? 0)) eqn:E; [intros HH; injection HH as <-; auto|]. nbool.
+    destruct tg as [|a0 [|a1 [|a2 [|a3 [|]]]]]; try (unfold ws, ss in I; cbn [AInv] in I; tauto).
+    apply IHfuel. apply share_pass_inv; auto. rewrite N.mul_comm. apply N.mul_div_le. auto.
+Qed.
+
+(* one iteration of the remainder loop on class (w, s) *)
+Lemma rem_step_spec w s a un wt start :
+  a <= s -> nf a s w <= wt ->
+  let u := N.min un (N.min (s - a) (w - start)) in
+  a < s -> a + u <= s /\ u <= un /\ (if s <=? a + u then wt - w else wt) + nf a s w = wt + nf (a + u) s w.
+Proof.
+  intros L W u Lt.
+  assert (U1 : u <= un) by apply N.le_min_l.
+  assert (U2 : u <= s - a) by (etransitivity; [apply N.le_min_r|apply N.le_min_l]).
+  clearbody u. unfold nf in *.
+  destruct (a <? s) eqn:E1; destruct (s <=? a + u) eqn:E2; destruct (a + u <? s) eqn:E3; nbool; repeat split; lia.
+Qed.
+
+Lemma rem_loop_inv : forall fuel i start st tg', (i < 4)%nat -> AInv ws ss mx st ->
+  rem_loop fuel i start ws ss st = Ok tg' -> exists un' wt', AInv ws ss mx (tg', un', wt') /\ (wt' = 0 \/ un' = 0).
+Proof.
+  induction fuel; intros i start [[tg un] wt] tg' Hi I; cbn [rem_loop].
+  - destruct ((wt =? 0) || (un =? 0)) eqn:E; [|discriminate]. intros HH; injection HH as <-. exists un, wt. split; auto. nbool. destruct E; nbool; auto.
+  - destruct ((wt =? 0) || (un =? 0)) eqn:E.
+    { intros HH; injection HH as <-. exists un, wt. split; auto. nbool. destruct E; nbool; auto. }
+    destruct tg as [|a0 [|a1 [|a2 [|a3 [|]]]]]; try (unfold ws, ss in I; cbn [AInv] in I; tauto).
+    destruct I as (L0 & L1 & L2 & L3 & Ewt & Esum).
+    assert (Hn : (Nat.modulo (S i) 4 < 4)%nat) by (apply Nat.mod_upper_bound; lia).
+    destruct i as [|[|[|[|i]]]]; try lia; cbn [nthN nth setN upd ws ss];
+    match goal with |- context [if (?w =? 0) || (?s <=? ?a) then _ else _] => destruct ((w =? 0) || (s <=? a)) eqn:E2 end;
+    [ apply IHfuel; [exact Hn|unfold ws, ss; cbn [AInv]; repeat split; assumption]
+    | nbool;
+      match goal with |- context [N.min un (N.min (?s - ?a) (?w - start))] =>
+        let X := fresh "X" in
+        assert (X := rem_step_spec w s a un wt start ltac:(lia) ltac:(unfold nf in *; destruct (a <? s); lia) ltac:(lia));
+        cbv zeta in X; destruct X as (X1 & X2 & X3) end;
+      apply IHfuel; [exact Hn|unfold ws, ss; cbn [AInv]; repeat split; lia]
+    | apply IHfuel; [exact Hn|unfold ws, ss; cbn [AInv]; repeat split; assumption]
+    | nbool;
+      match goal with |- context [N.min un (N.min (?s - ?a) (?w - start))] =>
+        let X := fresh "X" in
+        assert (X := rem_step_spec w s a un wt start ltac:(lia) ltac:(unfold nf in *; destruct (a <? s); lia) ltac:(lia));
+        cbv zeta in X; destruct X as (X1 & X2 & X3) end;
+      apply IHfuel; [exact Hn|unfold ws, ss; cbn [AInv]; repeat split; lia]
+    | apply IHfuel; [exact Hn|unfold ws, ss; cbn [AInv]; repeat split; assumption]
+    | nbool;
+      match goal with |- context [N.min un (N.min (?s - ?a) (?w - start))] =>
+        let X := fresh "X" in
+        assert (X := rem_step_spec w s a un wt start ltac:(lia) ltac:(unfold nf in *; destruct (a <? s); lia) ltac:(lia));
+        cbv zeta in X; destruct X as (X1 & X2 & X3) end;
+      apply IHfuel; [exact Hn|unfold ws, ss; cbn [AInv]; repeat split; lia]
+    | apply IHfuel; [exact Hn|unfold ws, ss; cbn [AInv]; repeat split; assumption]
+    | nbool;
+      match goal with |- context [N.min un (N.min (?s - ?a) (?w - start))] =>
+        let X := fresh "X" in
+        assert (X := rem_step_spec w s a un wt start ltac:(lia) ltac:(unfold nf in *; destruct (a <? s); lia) ltac:(lia));
+        cbv zeta in X; destruct X as (X1 & X2 & X3) end;
+      apply IHfuel; [exact Hn|unfold ws, ss; cbn [AInv]; repeat split; lia] ].
+Qed.
+
+Lemma find_start_spec a0 a1 a2 a3 un wt r :
+  AInv ws ss mx ([a0; a1; a2; a3], un, wt) -> r < wt ->
+  exists i st, find_start 4 0 r ws ss [a0; a1; a2; a3] = Ok (i, st) /\ (i < 4)%nat.
+Proof.
+  intros (L0 & L1 & L2 & L3 & Ewt & Esum) Hr. unfold nf in Ewt.
+  cbn [find_start nthN nth ws ss].
+  repeat match goal with
+  | |- context [if (?w =? 0) || (?s <=? ?a) then _ else _] => let E := fresh "E" in destruct ((w =? 0) || (s <=? a)) eqn:E
+  | |- context [if ?x <? ?w then _ else _] => let E := fresh "E" in destruct (x <? w) eqn:E
+  end; try (eexists; eexists; split; [reflexivity|lia]);
+  exfalso; nbool;
+  repeat match goal with H : _ \/ _ |- _ => destruct H end; nbool;
+  repeat match goal with H : context [if ?b then _ else _] |- _ => let E := fresh "E" in destruct b eqn:E end; nbool; lia.
+Qed.
+
+Definition sum4 (l : list N) : N := nthN l 0 + nthN l 1 + nthN l 2 + nthN l 3.
+
+(* allocate_slots_exact *)
+Theorem allocate_slots_exact tg h h' :
+  allocate_slots ws ss mx h = Ok (tg, h') ->
+  length tg = 4%nat /\ (forall i, (i < 4)%nat -> nthN tg i <= nthN ss i) /\ sum4 tg <= mx /\
+  (1 <= w0 -> 1 <= w1 -> 1 <= w2 -> 1 <= w3 -> sum4 tg = N.min mx (sum4 ss)).
+Proof.
+  unfold allocate_slots.
+  assert (I0 : AInv ws ss mx ([0; 0; 0; 0], mx, wtotal0 ws ss)).
+  { cbn [AInv ws ss]. unfold wtotal0, nf. cbn [map fold_left nthN nth ws ss].
+    repeat split; try lia.
+    repeat match goal with |- context [if ?b then _ else _] => let E := fresh "E" in destruct b eqn:E end; nbool; lia. }
+  destruct (share_loop 16 ws ss _) as [[[tg1 un1] wt1]|] eqn:SL; [|discriminate].
+  apply share_loop_inv in SL; auto.
+  assert (Fin : forall tg2 un2 wt2, AInv ws ss mx (tg2, un2, wt2) -> (wt2 = 0 \/ un2 = 0) ->
+     length tg2 = 4%nat /\ (forall i, (i < 4)%nat -> nthN tg2 i <= nthN ss i) /\ sum4 tg2 <= mx /\
+     (1 <= w0 -> 1 <= w1 -> 1 <= w2 -> 1 <= w3 -> sum4 tg2 = N.min mx (sum4 ss))).
+  { intros tg2 un2 wt2 I Z.
+    destruct tg2 as [|a0 [|a1 [|a2 [|a3 [|]]]]]; try (unfold ws, ss in I; cbn [AInv] in I; tauto).
+    destruct I as (L0 & L1 & L2 & L3 & Ewt & Esum). unfold sum4. cbn [nthN nth ss length].
+    split; [reflexivity|]. split; [intros i Hi; destruct i as [|[|[|[|i]]]]; try lia; cbn [nthN nth]; lia|].
+    split; [lia|]. intros W0 W1 W2 W3. unfold nf in Ewt.
+    destruct Z as [Z|Z]; [|lia]. subst wt2.
+    repeat match goal with H : context [if ?b then _ else _] |- _ => let E := fresh "E" in destruct b eqn:E end; nbool; lia. }
+  destruct ((wt1 =? 0) || (un1 =? 0)) eqn:E.
+  - intros HH; injection HH as <- _. apply (Fin _ _ _ SL). nbool. destruct E; nbool; auto.
+  - unfold pop_rand. nbool.
+    destruct tg1 as [|a0 [|a1 [|a2 [|a3 [|]]]]]; try (unfold ws, ss in SL; cbn [AInv] in SL; tauto).
+    destruct (find_start_spec a0 a1 a2 a3 un1 wt1 (hd 0 (h_rs h) mod wt1) SL) as (i & st & FS & Hi).
+    { apply N.mod_lt. auto. }
+    rewrite FS. cbn [fst snd].
+    destruct (rem_loop 256 i st ws ss _) as [tg2|] eqn:RL; [|discriminate].
+    intros HH; injection HH as <- _.
+    destruct (rem_loop_inv _ _ _ _ _ Hi SL RL) as (un2 & wt2 & I2 & Z2). apply (Fin _ _ _ I2 Z2).
+Qed.
+
+(* the C++ "find start" loop never leaves the arrays *)
+Theorem allocate_slots_no_fault h : allocate_slots ws ss mx h <> Err EFault /\ allocate_slots ws ss mx h <> Err EInternal.
+Proof.
+  unfold allocate_slots.
+  assert (I0 : AInv ws ss mx ([0; 0; 0; 0], mx, wtotal0 ws ss)).
+  { cbn [AInv ws ss]. unfold wtotal0, nf. cbn [map fold_left nthN nth ws ss].
+    repeat split; try lia.
+    repeat match goal with |- context [if ?b then _ else _] => let E := fresh "E" in destruct b eqn:E end; nbool; lia. }
+  assert (SLE : forall fuel st, share_loop fuel ws ss st <> Err EFault /\ share_loop fuel ws ss st <> Err EInternal).
+  { induction fuel; intros [[tg un] wt]; cbn [share_loop]; destruct (_ || _); split; try discriminate; apply IHfuel. }
+  assert (RLE : forall fuel i st0 st, rem_loop fuel i st0 ws ss st <> Err EFault /\ rem_loop fuel i st0 ws ss st <> Err EInternal).
+  { induction fuel; intros i st0 [[tg un] wt]; cbn [rem_loop]; destruct (_ || _); try (split; discriminate).
+    destruct (_ || _); apply IHfuel. }
+  destruct (share_loop 16 ws ss _) as [[[tg1 un1] wt1]|e] eqn:SL.
+  - apply share_loop_inv in SL; auto. destruct ((wt1 =? 0) || (un1 =? 0)) eqn:E; [split; discriminate|]. nbool.
+    unfold pop_rand.
+    destruct tg1 as [|a0 [|a1 [|a2 [|a3 [|]]]]]; try (unfold ws, ss in SL; cbn [AInv] in SL; tauto).
+    destruct (find_start_spec a0 a1 a2 a3 un1 wt1 (hd 0 (h_rs h) mod wt1) SL) as (i & st & FS & Hi).
+    { apply N.mod_lt. auto. }
+    rewrite FS. cbn [fst snd]. destruct (rem_loop 256 i st ws ss _) as [tg2|e] eqn:RL; [split; discriminate|].
+    destruct (RLE 256%nat i st ([a0; a1; a2; a3], un1, wt1)) as [A B]. rewrite RL in A, B. split; congruence.
+  - destruct (SLE 16%nat ([0; 0; 0; 0], mx, wtotal0 ws ss)) as [A B]. rewrite SL in A, B. split; congruence.
+Qed.
+End Alloc.
+
+Lemma table_shape (heur : nat) (choke : bool) :
+  exists w0 w1 w2 w3, (if choke then choke_table heur else unchoke_table heur) = [w0; w1; w2; w3] /\
+                      1 <= w0 /\ 1 <= w1 /\ 1 <= w2 /\ 1 <= w3.
+Proof. destruct choke; destruct heur as [|[|[|k]]]; simpl; do 4 eexists; (split; [reflexivity|]); lia. Qed.
+
+(* allocate_slots_exact over the real heuristics tables (tied to the source by params_ok_now) *)
+Theorem allocate_slots_exact_real (heur : nat) (choke : bool) s0 s1 s2 s3 mx h tg h' :
+  allocate_slots (if choke then choke_table heur else unchoke_table heur) [s0; s1; s2; s3] mx h = Ok (tg, h') ->
+  length tg = 4%nat /\ (forall i, (i < 4)%nat -> nthN tg i <= nthN [s0; s1; s2; s3] i) /\
+  sum4 tg = N.min mx (s0 + s1 + s2 + s3).
+Proof. destruct (table_shape heur choke) as (w0 & w1 & w2 & w3 & -> & A & B & C & E). intros H.
+  destruct (allocate_slots_exact w0 w1 w2 w3 s0 s1 s2 s3 mx tg h h' H) as (L & Bd & _ & Ex).
+  split; [exact L|split; [exact Bd|]]. rewrite (Ex A B C E). unfold sum4. reflexivity. Qed.
+
+Theorem allocate_slots_no_fault_real (heur : nat) (choke : bool) s0 s1 s2 s3 mx h :
+  allocate_slots (if choke then choke_table heur else unchoke_table heur) [s0; s1; s2; s3] mx h <> Err EFault /\
+  allocate_slots (if choke then choke_table heur else unchoke_table heur) [s0; s1; s2; s3] mx h <> Err EInternal.
+Proof. destruct (table_shape heur choke) as (w0 & w1 & w2 & w3 & -> & _). apply allocate_slots_no_fault. Qed.
+
+Example allocate_slots_exact_nonvacuous :
+  exists tg h', allocate_slots (unchoke_table 0) [2; 5; 0; 3] 7 (empty_half 1 1 0) = Ok (tg, h') /\ sum4 tg = 7.
+Proof. do 2 eexists. vm_compute. split; reflexivity. Qed.
